@@ -57,10 +57,17 @@ def case(draw, tier):
     ctimes = draw(gen.time_set(start, end - 1, 1, 9 if big else 6))
     # the reference is made by if_then_else (two targets, boolean condition) or by if_cmp (three targets, selected by the
     # three-way result of cmp_(x, 0) for a scripted x)
-    via = draw(st.sampled_from(["ite", "ite", "cmp", "switch"]))
+    via = draw(st.sampled_from(["ite", "ite", "cmp", "switch", "ite2"]))
     if via == "switch" and shape.startswith("TSB"):
         via = "ite"     # a bundle forwarded out of a switch_ keeps the fields last forwarded by the previous branch: not asserted here
-    if via == "switch":
+    c2 = []
+    if via == "ite2":
+        # a selection of a selection: if_then_else(c2, g, if_then_else(c, a, b)) - the inner reference can move while the
+        # outer condition stays put
+        c = [[t, [{"k": "set", "v": draw(st.booleans())}]] for t in ctimes]
+        c2 = [[t, [{"k": "set", "v": draw(st.integers(0, 3)) == 0}]] for t in draw(gen.time_set(start, end - 1, 1, 4))]
+        g = target()
+    elif via == "switch":
         # switch_ whose branches pass one of the outer inputs through: the output follows a or b by reference
         c = [[t, [{"k": "set", "v": draw(st.integers(0, 1))}]] for t in ctimes]
         g = []
@@ -72,7 +79,7 @@ def case(draw, tier):
         g = target()
     # the candidate targets are separate outputs, or sibling children of ONE output (elements of a TSL / fields of a TSB)
     siblings = draw(st.sampled_from([None, None, "TSL", "TSB"]))
-    return {"start": start, "end": end, "shape": shape, "a": a, "b": b, "g": g, "via": via, "c": c, "n_cons": draw(st.integers(1, 3)),
+    return {"start": start, "end": end, "shape": shape, "a": a, "b": b, "g": g, "via": via, "c": c, "c2": c2, "n_cons": draw(st.integers(1, 3)),
             "nested": draw(st.integers(0, 3)) == 0, "siblings": siblings}
 
 
@@ -100,7 +107,24 @@ def check(case, ctx) -> Result:
     res = Result()
     start, end, shape = case["start"], case["end"], case["shape"]
     via = case.get("via", "ite")
-    if via == "ite":
+    cond_names = ["c"]
+    if via == "ite2":
+        stmts = [{"id": "c", "op": "src", "schema": "TS[bool]", "script": case["c"]},
+                 {"id": "c2", "op": "src", "schema": "TS[bool]", "script": case["c2"]},
+                 {"id": "a", "op": "src", "schema": shape, "script": case["a"]},
+                 {"id": "b", "op": "src", "schema": shape, "script": case["b"]},
+                 {"id": "g", "op": "src", "schema": shape, "script": case["g"]},
+                 {"id": "seli", "op": "op", "name": "if_then_else", "args": [{"ts": "c"}, {"ts": "a"}, {"ts": "b"}], "has_out": True},
+                 {"id": "sel0", "op": "op", "name": "if_then_else", "args": [{"ts": "c2"}, {"ts": "g"}, {"ts": "seli"}], "has_out": True}]
+        cond_names = ["c", "c2"]
+
+        def pick(st_):     # state of both conditions -> effective target (None while the selection is still undefined)
+            if "c2" not in st_:
+                return None
+            if st_["c2"]:
+                return "g"
+            return None if "c" not in st_ else ("a" if st_["c"] else "b")
+    elif via == "ite":
         stmts = [{"id": "c", "op": "src", "schema": "TS[bool]", "script": case["c"]},
                  {"id": "a", "op": "src", "schema": shape, "script": case["a"]},
                  {"id": "b", "op": "src", "schema": shape, "script": case["b"]},
@@ -133,7 +157,7 @@ def check(case, ctx) -> Result:
         stmts = [x for x in stmts if x["id"] not in tn]
         stmts.insert(1, {"id": "ab", "op": "src", "schema": whole, "script": [[t, ops] for t, ops in sorted(merged.items())]})
         for x in stmts:
-            if x["id"] == "sel0":
+            if x["id"] in ("sel0", "seli"):
                 for arg in x["args"]:
                     if arg.get("ts") in tn:
                         arg["ts"] = {"r": "ab", "path": [tn.index(arg["ts"])]}
@@ -171,10 +195,15 @@ def check(case, ctx) -> Result:
         return res
     tr = Trace(resp["trace"])
     sch = schema_of(shape)
-    names = ["a", "b"] + (["g"] if via == "cmp" else [])
+    names = ["a", "b"] + (["g"] if via in ("cmp", "ite2") else [])
+    if via != "ite2":
+        pick1 = pick
+        pick = lambda st_: pick1(st_["c"]) if "c" in st_ else None
     MS = {n: tm.M(sch) for n in names}
     scripts = {n: {t: ops for t, ops in case[n]} for n in names}
-    sc = {t: ops for t, ops in case["c"]}
+    conds = {cn: {t: ops for t, ops in case[cn]} for cn in cond_names}
+    sc = {t: True for cn in cond_names for t in conds[cn]}
+    cstate = {}
     cur = None         # "a" / "b"
     held = None        # the value the consumers hold (contents of the previous target as last seen)
     feats0 = {"shape": shape, "nested": case["nested"], "via": via, "siblings": bool(sib)}
@@ -188,7 +217,12 @@ def check(case, ctx) -> Result:
                 MS[n].apply(op, t)
         new = cur
         if t in sc:
-            new = pick(sc[t][-1]["v"])
+            for cn in cond_names:
+                if t in conds[cn]:
+                    cstate[cn] = conds[cn][t][-1]["v"]
+            new = pick(cstate)
+            if new is None:
+                new = cur      # an undefined selection publishes nothing: the previous one stays
         if new is None:
             continue
         tgt = MS[new]
@@ -217,12 +251,15 @@ def check(case, ctx) -> Result:
         cur = new
         if tvalid(tgt):
             held = val_of(tgt)
-    sel_changes, last = [], None
-    for t, ops in case["c"]:
-        v = pick(ops[-1]["v"])
-        if v != last:
+    sel_changes, last, st2 = [], None, {}
+    for t in sorted(sc):
+        for cn in cond_names:
+            if t in conds[cn]:
+                st2[cn] = conds[cn][t][-1]["v"]
+        v = pick(st2)
+        if v is not None and v != last:
             sel_changes.append(t)
-        last = v
+            last = v
     ref_ticks = [d["t"] for d in tr.evals_of("kref", "r") if d["ins"][0].get("m")]
     if via != "switch" and ref_ticks != sel_changes:
         extra = [t for t in ref_ticks if t not in sel_changes]
